@@ -42,7 +42,8 @@ META = {
 
 
 def h_burst(ctx, burst, window, n_tries, faults, kinds, stale, seq0,
-            via_send_scp=False, multi=False, seq_mask=None, untimed=False):
+            via_send_scp=False, multi=False, seq_mask=None, untimed=False,
+            payload=b""):
     from models.net import World, Patch, RC_OK
     from rig.machine_control import scp_connection as sc
     from rig.machine_control.scp_connection import (
@@ -85,12 +86,13 @@ def h_burst(ctx, burst, window, n_tries, faults, kinds, stale, seq0,
                 calls.append((i, packet))
             return cb
         cmds = [scpcall(1, 2, 3, 5, arg1=100 + i, callback=mk(i),
-                        timeout=extras[i]) for i in range(burst)]
+                        timeout=extras[i], data=payload)
+                for i in range(burst)]
         outcome = None
         err = None
         try:
             if via_send_scp:
-                r = conn.send_scp(256, 1, 2, 3, 5, arg1=100,
+                r = conn.send_scp(256, 1, 2, 3, 5, arg1=100, data=payload,
                                   timeout=extras[0])
                 calls.append((0, r.bytestring))
             else:
@@ -227,15 +229,17 @@ def units(tier, seed):
     ALL = ("lose_req", "lose_rep", "dup", "retry", "fatal")
 
     def add(b, w, n, f, kinds, stale=False, seq0=0, split=0, wit=("ok",),
-            via=False, multi=False, seq_mask=None, untimed=False):
-        name = "burst=%d window=%d tries=%d faults=%d kinds=%s%s%s seq0=%#x%s%s" % (
+            via=False, multi=False, seq_mask=None, untimed=False,
+            payload=b""):
+        name = "burst=%d window=%d tries=%d faults=%d kinds=%s%s%s seq0=%#x%s%s%s" % (
             b, w, n, f, "+".join(kinds), " stale" if stale else "",
             " multi" if multi else "", seq0, " send_scp" if via else "",
-            " seqmask=%#x untimed" % seq_mask if seq_mask is not None else "")
+            " seqmask=%#x untimed" % seq_mask if seq_mask is not None else "",
+            " payload" if payload else "")
         us.append(Unit(name, h_burst, dict(
             burst=b, window=w, n_tries=n, faults=f, kinds=kinds, stale=stale,
             seq0=seq0, via_send_scp=via, multi=multi, seq_mask=seq_mask,
-            untimed=untimed), split=split,
+            untimed=untimed, payload=payload), split=split,
             witnesses=wit, path_timeout_s=40))
     OTF = ("ok", "timeout", "fatal")
     add(1, 1, 1, 1, ALL, wit=OTF, multi=True)
@@ -243,6 +247,12 @@ def units(tier, seed):
     add(1, 1, 2, 1, ALL, stale=True, seq0=0xffff, split=4, wit=OTF,
         multi=True)
     add(2, 1, 2, 1, ("lose_rep",), split=5, wit=("ok", "timeout"))
+    # commands carrying data (text full of braces, percent signs and
+    # backslashes: whatever builds the error objects must not interpret it)
+    add(1, 1, 1, 1, ALL, wit=OTF, multi=True,
+        payload=b'{"n": {0}, "s": "%s %d {x!r}"} \\ {')
+    add(2, 2, 1, 1, ("lose_req", "fatal"), split=5, wit=OTF,
+        payload=b"{}{1}}{")
     add(2, 2, 2, 0, (), seq0=0xffff, split=6, wit=("ok", "timeout"))
     add(2, 2, 1, 2, LOSS, split=6, wit=("ok", "timeout"))
     add(2, 2, 1, 1, ("fatal", "retry", "dup"), split=6, wit=OTF)
